@@ -3,7 +3,7 @@
    length is below 2^63 (without either the statement is false, see WireFmt/ProofsSafe.v).
    Property statements only; each is closed by [exact] of a lemma proved in WireFmt/Proofs*.v. *)
 From Coq Require Import List ZArith.
-From SV Require Import WireFmt.Format WireFmt.ProofsSafe WireFmt.ProofsExamples.
+From SV Require Import WireFmt.Format WireFmt.Group WireFmt.ProofsSafe WireFmt.ProofsGroup WireFmt.ProofsExamples.
 Import ListNotations.
 Open Scope Z_scope.
 
@@ -30,3 +30,32 @@ Theorem c10_unguarded_refuted :
   exists f v x0 bs, guarded cfg_fixed f = false /\ dec_top cfg_fixed (Some 1000) f v x0 bs = Panic.
 Proof. exact unguarded_refuted. Qed.
 Print Assumptions c10_unguarded_refuted.
+
+(* Group protocol: JoinGroupResponse.GetMembers is the per-blob decoder d mapped over the members.  The metadata a
+   member is given depends on that member's own bytes only - not on what the other members sent, nor on where the member
+   sits in the iteration of the map. *)
+Theorem c10_members_independent : forall (K : Type) d (ms ms' : list (K * option (list Z))) l l' i j k k' b,
+  get_members d ms = Ok l -> get_members d ms' = Ok l' ->
+  nth_error ms i = Some (k, b) -> nth_error ms' j = Some (k', b) ->
+  exists y, d b = Ok y /\ nth_error l i = Some (k, y) /\ nth_error l' j = Some (k', y).
+Proof. exact (@members_independent). Qed.
+Print Assumptions c10_members_independent.
+
+Theorem c10_members_order_irrelevant : forall (K : Type) d (ms ms' : list (K * option (list Z))) l,
+  Permutation.Permutation ms ms' -> get_members d ms = Ok l ->
+  exists l', get_members d ms' = Ok l' /\ Permutation.Permutation l l'.
+Proof. exact (@members_order_irrelevant). Qed.
+Print Assumptions c10_members_order_irrelevant.
+
+(* the whole call succeeds exactly when every member's own blob decodes, and with a guarded blob format it never panics *)
+Theorem c10_members_ok_iff : forall (K : Type) d (ms : list (K * option (list Z))),
+  is_ok (get_members d ms) = forallb (fun m => is_ok (d (snd m))) ms.
+Proof. exact (@get_members_ok_iff). Qed.
+Print Assumptions c10_members_ok_iff.
+
+Theorem c10_members_safe : forall (K : Type) cfg fd zero cap (ms : list (K * option (list Z))),
+  guarded cfg fd = true ->
+  (forall k bs, In (k, Some bs) ms -> bytes_ok bs = true /\ zlen bs < 2 ^ 63 /\ max_esize fd * zlen bs <= cap) ->
+  safe_outcome (get_members (decode_blob cfg (Some cap) fd zero) ms).
+Proof. exact members_safe_guarded. Qed.
+Print Assumptions c10_members_safe.
